@@ -596,7 +596,7 @@ lblOuter:
 		i = a
 	}
 	for ; i < 6; i++ {
-		t += i
+		t += i*i + 1
 	}
 	return t, x`),
 		// a narrow counter that wraps inside the loop (step within the small-literal range, so the
@@ -616,6 +616,28 @@ lblOuter:
 		}
 	}
 	return t, x`),
+		mk("toptestbreak", `	t := 0
+	i := a
+	for {
+		if i > 0 {
+			t += i
+			i--
+		} else {
+			break
+		}
+	}
+	return t, x`),
+		mk("uint64mask", `	c := uint64(a*7+b) & 0xFFFFFFFFFFFFFFF0
+	d := uint64(b) ^ 0xFFFFFFFFFFFFFFFF
+	if c > d {
+		return int(c >> 58), x
+	}
+	return int(d >> 58), y`),
+		mk("floatlit", `	f := float64(a) * 16777216.0
+	if f+0.1234567 < 16777216.5 {
+		return int(f / 1048576.0), x
+	}
+	return int(f/1048576.0) + 1, y`),
 		mk("dupexpr", `	t := a * b
 	c := (t + 1) * (t + 1)
 	d := (t - 2) * (t - 2)
